@@ -166,6 +166,8 @@ fn rule_tag(rules: &[&'static str]) -> String {
 struct Cx {
   rep: Report,
   jwk: Jwk,
+  /// the same key with its optional `alg` member set (a key's own alg says nothing about what the header protects)
+  jwk_alg: Jwk,
 }
 
 fn liar() -> JwsVerifierFn<impl Fn(VerificationInput, &Jwk) -> Result<(), SignatureVerificationError>> {
@@ -224,39 +226,7 @@ impl Cx {
     let uh: Option<JwsHeader> = uj.as_ref().map(|j| serde_json::from_str(j).expect("table header must deserialize"));
     let payload = b"hello";
 
-    // ---- encoders
-    if uj.is_none() {
-      if let Some(ph) = &ph {
-        for (name, opt) in [
-          ("compact-encoder", CompactJwsEncodingOptions::NonDetached { charset_requirements: CharSet::Default }),
-          ("compact-encoder-detached", CompactJwsEncodingOptions::Detached),
-        ] {
-          let r = catch(|| CompactJwsEncoder::new_with_options(payload, ph, opt).is_ok());
-          self.judge(name, r, &rules, None, case.clone());
-        }
-      }
-    }
-    for detached in [false, true] {
-      let r = catch(|| FlattenedJwsEncoder::new(payload, mk(&ph, &uh), detached).is_ok());
-      self.judge("flattened-encoder", r, &rules, None, case.clone());
-      let r = catch(|| GeneralJwsEncoder::new(payload, mk(&ph, &uh), detached).is_ok());
-      self.judge("general-encoder-new", r, &rules, None, case.clone());
-    }
-    // add_recipient after a valid first recipient with effective b64 true / false
-    for first_b64_false in [false, true] {
-      let first_json = if first_b64_false { r#"{"alg":"EdDSA","b64":false,"crit":["b64"]}"# } else { r#"{"alg":"EdDSA"}"# };
-      let first: JwsHeader = serde_json::from_str(first_json).unwrap();
-      let eff_first = !first_b64_false;
-      let disagree = eff_b64_prot != eff_first;
-      let r = catch(|| {
-        let enc = GeneralJwsEncoder::new(payload, Recipient::new().protected(&first), false).expect("valid first recipient");
-        let enc = enc.set_signature(b"sig");
-        enc.add_recipient(mk(&ph, &uh)).is_ok()
-      });
-      let mut c = case.clone();
-      c["first_recipient_protected"] = json!(first_json);
-      self.judge("general-encoder-add_recipient", r, &rules, if disagree { Some("recipients-disagree-on-b64") } else { None }, c);
-    }
+    self.encoders(&ph, &uh, &rules, eff_b64_prot, &case);
 
     // ---- decoders (tokens assembled by the harness so that illegal header sets reach them)
     let payload_seg = "aGVsbG8"; // valid both as base64url text and as an unencoded payload
@@ -264,7 +234,7 @@ impl Cx {
     let entry = jwsb::SigEntry { protected_segment: pseg.clone(), unprotected_json: uj.clone(), signature_segment: "c2ln".into() };
     let verify_extra = if prot_alg { None } else { Some("verify-without-protected-alg") };
     let dec = Decoder::new();
-    let jwk = self.jwk.clone();
+    let jwk = if idx % 2 == 0 { self.jwk.clone() } else { self.jwk_alg.clone() };
     if uj.is_none() {
       if let Some(pseg) = &pseg {
         let tok = format!("{}.{}.c2ln", pseg, payload_seg);
@@ -294,6 +264,50 @@ impl Cx {
       });
       self.decode_judge(name, r, &rules, verify_extra, &case);
     }
+  }
+
+  /// Every encoder entry point for one header pair (given as header values, however they were built).
+  fn encoders(&mut self, ph: &Option<JwsHeader>, uh: &Option<JwsHeader>, rules: &[&'static str], eff_b64_prot: bool, case: &serde_json::Value) {
+    let payload = b"hello";
+    let rules: Vec<&'static str> = rules.to_vec();
+    let case = case.clone();
+    // ---- encoders
+    if uh.is_none() {
+      if let Some(ph) = ph {
+        for (name, opt) in [
+          ("compact-encoder", CompactJwsEncodingOptions::NonDetached { charset_requirements: CharSet::Default }),
+          ("compact-encoder-detached", CompactJwsEncodingOptions::Detached),
+        ] {
+          let r = catch(|| CompactJwsEncoder::new_with_options(payload, ph, opt).is_ok());
+          self.judge(name, r, &rules, None, case.clone());
+        }
+      }
+    }
+    for detached in [false, true] {
+      let r = catch(|| FlattenedJwsEncoder::new(payload, mk(ph, uh), detached).is_ok());
+      self.judge("flattened-encoder", r, &rules, None, case.clone());
+      let r = catch(|| GeneralJwsEncoder::new(payload, mk(ph, uh), detached).is_ok());
+      self.judge("general-encoder-new", r, &rules, None, case.clone());
+    }
+    // add_recipient after a valid first recipient with effective b64 true / false
+    for first_kind in 0..3u8 {
+      // 0: protected {alg}; 1: protected {alg, b64:false, crit}; 2: unprotected-only {alg} (effective b64 = true)
+      let first_b64_false = first_kind == 1;
+      let first_json = if first_b64_false { r#"{"alg":"EdDSA","b64":false,"crit":["b64"]}"# } else { r#"{"alg":"EdDSA"}"# };
+      let first: JwsHeader = serde_json::from_str(first_json).unwrap();
+      let eff_first = !first_b64_false;
+      let disagree = eff_b64_prot != eff_first;
+      let r = catch(|| {
+        let first_recipient = if first_kind == 2 { Recipient::new().unprotected(&first) } else { Recipient::new().protected(&first) };
+        let enc = GeneralJwsEncoder::new(payload, first_recipient, false).expect("valid first recipient");
+        let enc = enc.set_signature(b"sig");
+        enc.add_recipient(mk(ph, uh)).is_ok()
+      });
+      let mut c = case.clone();
+      c[if first_kind == 2 { "first_recipient_unprotected" } else { "first_recipient_protected" }] = json!(first_json);
+      self.judge("general-encoder-add_recipient", r, &rules, if disagree { Some("recipients-disagree-on-b64") } else { None }, c);
+    }
+
   }
 
   /// Decode acceptance is judged against the header rules; verification additionally needs a protected alg.
@@ -331,7 +345,7 @@ fn mk<'a>(p: &'a Option<JwsHeader>, u: &'a Option<JwsHeader>) -> Recipient<'a> {
 fn main() {
   let args = Args::parse();
   let scale = args.extra_u64("scale", 1000);
-  let mut cx = Cx { rep: Report::new("C11"), jwk: vh::keys::Key::ed(1).public_jwk(None) };
+  let mut cx = Cx { rep: Report::new("C11"), jwk: vh::keys::Key::ed(1).public_jwk(None), jwk_alg: vh::keys::Key::ed(1).public_jwk(Some("EdDSA")) };
   cx.rep.rule(
     "exhaustive table: every pair (protected, unprotected) with each header in {alg present/absent} x {b64 absent/true/false} x \
      14 crit lists x every subset of shared names {kid, x-c, a-b (two custom names so that a shared custom name sits at different sorted positions)[, typ, x5t#S256]}, plus protected-only and unprotected-only sets, evaluated at \
@@ -432,6 +446,42 @@ fn main() {
     cx.run_pair(idx, Some(with_crit), None, vec!["crit-names-unimplemented-extension"], true, true);
     // the same custom parameter without crit is an ordinary custom parameter
     cx.run_pair(idx, Some(without), None, vec![], true, true);
+  }
+  // ---- headers built through the setters, with a reserved name smuggled in through the custom-parameter map: on the wire it
+  // is an ordinary member of that header, so the same rules apply (encoders only; decoders always see JSON)
+  {
+    use std::collections::BTreeMap;
+    let prot_alg: JwsHeader = {
+      let mut h = JwsHeader::new();
+      h.set_alg(identity_jose::jws::JwsAlgorithm::EdDSA);
+      h
+    };
+    let custom = |k: &str, v: serde_json::Value| -> JwsHeader {
+      let mut h = JwsHeader::new();
+      let mut m = BTreeMap::new();
+      m.insert(k.to_string(), v);
+      h.set_custom(m);
+      h
+    };
+    let rows: Vec<(&str, Option<JwsHeader>, Option<JwsHeader>, Vec<&'static str>)> = vec![
+      ("unprotected custom crit", Some(prot_alg.clone()), Some(custom("crit", json!(["b64"]))), vec!["crit-outside-protected"]),
+      ("unprotected custom crit (unknown extension)", Some(prot_alg.clone()), Some(custom("crit", json!(["x-unknown"]))), vec!["crit-outside-protected"]),
+      ("unprotected custom b64", Some(prot_alg.clone()), Some(custom("b64", json!(false))), vec!["b64-outside-protected"]),
+      ("unprotected custom alg", Some(prot_alg.clone()), Some(custom("alg", json!("EdDSA"))), vec!["headers-share-parameter"]),
+      ("unprotected-only custom crit", None, Some(custom("crit", json!(["b64"]))), vec!["crit-outside-protected"]),
+      ("unprotected custom x-only (legal)", Some(prot_alg.clone()), Some(custom("x-only", json!(1))), vec![]),
+      ("setter-built protected alg only (legal)", Some(prot_alg.clone()), None, vec![]),
+    ];
+    for (what, ph, uh, rules) in rows {
+      idx += 1;
+      if !args.mine(idx) {
+        continue;
+      }
+      cx.rep.inc("setter_built_rows");
+      let case = json!({"headers_built_with": "JwsHeader::new + setters / set_custom", "row": what,
+        "protected": ph.as_ref().map(|h| serde_json::to_value(h).unwrap_or_default()), "unprotected": uh.as_ref().map(|h| serde_json::to_value(h).unwrap_or_default())});
+      cx.encoders(&ph, &uh, &rules, true, &case);
+    }
   }
   cx.rep.note("table_rows", json!(idx));
   cx.rep.finish();
